@@ -141,6 +141,19 @@ def check_case(case) -> Result:
     d = 1e-4
     z2 = float(lib("z_factor_DAK", G.z_factor_DAK, T, p * (1 + d), tpc, ppc))
     res.check("C06/continuous", abs(z2 - z), 5 * d * max(pr, 1.0) + 1e-6, f"Z jumps {z!r} -> {z2!r} for p_r {pr!r} -> {pr * (1 + d)!r} at T_r={tr!r};")
+    # the numeric type of the inputs must not matter: float32 scalars (elements of a float32 pressure array) and
+    # whole numbers given as Python ints give the root for the value they represent
+    import numpy as np
+
+    p32 = np.float32(p)
+    z32 = float(lib("z_factor_DAK(float32 pressure)", G.z_factor_DAK, T, p32, tpc, ppc))
+    z64 = float(lib("z_factor_DAK", G.z_factor_DAK, T, float(p32), tpc, ppc))
+    res.check("C06/input-dtype-irrelevant", abs(z32 - z64), 1e-6, f"Z(np.float32({float(p32)!r}))={z32!r} vs Z({float(p32)!r})={z64!r} at T_r={tr!r};")
+    if p >= 20:
+        pi_ = int(round(p))
+        zi = float(lib("z_factor_DAK(int pressure)", G.z_factor_DAK, T, pi_, tpc, ppc))
+        zf = float(lib("z_factor_DAK", G.z_factor_DAK, T, float(pi_), tpc, ppc))
+        res.check("C06/input-dtype-irrelevant", abs(zi - zf), 1e-12, f"Z(int {pi_})={zi!r} vs Z(float)={zf!r};")
     # (iv) low-pressure limit
     if pr <= 1e-2:
         res.check("C06/low-pressure-limit", abs(z - 1.0), 0.6 * pr, f"|Z-1| with Z={z!r} at p_r={pr!r} T_r={tr!r};")
